@@ -205,6 +205,12 @@ func runC13(cfg *vh.Config) error {
 			b1, _ = j5sgen.NewGen(cfg.R.Fork(label), gcfg).Bundle()
 			re := cfg.R.Fork(label + "-edit")
 			edits = j5sgen.ApplyEdits(re, b1, pkg, re.Range(1, 4))
+			// mixed histories: a message appended to a publish topic whose messages are all named (EAppendTopicMsg)
+			if re.Chance(15) {
+				if rec := j5sgen.AppendTopicMessage(re, b1, pkg); rec != nil {
+					edits = append(edits, j5sgen.EditRec{Kind: "topicmsg", Target: rec.Target, What: rec.What, Coq: rec.Coq})
+				}
+			}
 		}
 		// the same surface forms for the unchanged parts are not required: both are printed independently
 		t0 := b0.Texts(cfg.R.Fork(label + "-print"))
